@@ -714,3 +714,5 @@ M("C17", "update_H drops the noise term", "kill", [(HM, "    single_qubit_terms 
 M("C02", "XY middle factor loses the pending channel", "kill", [(HM, "        factor = self._empty_factor(left_bond_dim, right_bond_dim)\n\n        factor[0, :, :, 0] = self.identity\n        factor[1, :, :, 1] = self.identity\n\n        coeff = self._left_interaction_coefficients(n, current_left_interactions)\n        factor[2::2, :2, :2, 0] = coeff * 2 * Operators.sx", "        factor = self._empty_factor(left_bond_dim, right_bond_dim)\n\n        factor[0, :, :, 0] = self.identity\n\n        coeff = self._left_interaction_coefficients(n, current_left_interactions)\n        factor[2::2, :2, :2, 0] = coeff * 2 * Operators.sx")], "HAM-mps")
 M("C02", "twin: drive term written as one complex exponential pair", "twin", [(HM, "    single_qubit_terms[:, :2, :2] += a + b - c", "    single_qubit_terms[:, :2, :2] += (a - c) + b")])
 M("C02", "twin: detuning subtracted via a negated coefficient", "twin", [(HM, "    c = torch.tensordot(delta, Operators.n, dims=0)", "    c = torch.tensordot(-delta, Operators.n, dims=0)"), (HM, "    single_qubit_terms[:, :2, :2] += a + b - c", "    single_qubit_terms[:, :2, :2] += a + b + c")])
+M("C19", "twin: bracket width taken as an absolute value first", "twin", [(BR, "        delta_ab = self.a - self.b\n", "        delta_ab = self.a - self.b\n        width = abs(self.a - self.b)\n"), (BR, "            (adx >= abs(3 * delta_ab / 4) or dx * delta_ab < 0)", "            (adx >= 3 * width / 4 or dx * delta_ab < 0)")])
+M("C19", "bracket width made absolute, direction test lost", "kill", [(BR, "        delta_ab = self.a - self.b\n", "        delta_ab = abs(self.a - self.b)\n"), (BR, "            (adx >= abs(3 * delta_ab / 4) or dx * delta_ab < 0)", "            adx >= 3 * delta_ab / 4")], "BRENT-inside")
